@@ -202,6 +202,42 @@ CHECKS["C05"] = dict(
     design="4 (C05)",
     note="fixed Antrea statistics configuration; httpVals (JSON merge) is outside the model and the configuration.")
 
+CHECKS["C10"] = dict(
+    engine="tm",
+    technique="Lean 4 proof (inductive invariant over ALL event sequences = all timer schedules, with ghost last-refresh state) + exhaustive small-depth correspondence through a harness-owned scheduled clock",
+    text="19 theorems on the model of UDP template lifetime (events: template / refresh, bad template, data, clock advance, timer fire, callback "
+         "reads the clock, callback finishes under the lock; timer contract as documented for time.AfterFunc/Stop/Reset): inv_step / inv_reachable "
+         "(the invariant holds after EVERY event sequence), stored_has_expiry_pending (exactly one armed timer with deadline = expiry, or an "
+         "effective callback in flight), removed_has_no_armed_timer, no_early_drop, usable_within_ttl, gone_after_timer_ran, "
+         "expiry_is_lastRefresh_plus_ttl, model_trace_ok. The real collector runs with a harness implementation of its clock/timer interfaces "
+         "whose firing, Now() and callback completion are scheduled by the trace (fired-but-pending callbacks included): all enabled sequences "
+         "to depth 5-6 over 2 ids x 2 domains, random beyond; the trace predicates are evaluated on every implementation observation.",
+    design="4 (C10)",
+    note="time.Timer is trusted to meet the documented AfterFunc/Stop/Reset contract; the callback is parked between reading the clock and taking the lock (nothing happens in between in the code).")
+CHECKS["C12"] = dict(
+    engine="mux",
+    technique="Lean 4 proof (per-connection FIFO through one rendezvous channel for every schedule; lock discipline by decide over extracted facts) + race-detector stress with real sockets; partial (runtime facts observed)",
+    text="PARTIAL: proved for every scheduler choice sequence on the multiplexer model - per_connection_fifo, delivered_is_interleaving, "
+         "accepted_all_delivered_after_stop, udp_at_most_once, conn_count_returns, stop_stops, nothing_delivered_after_stop, "
+         "model_satisfies_spec - and lock_discipline_collector over the lock facts regenerated from the source by tools/lockfacts-collector (the four "
+         "unguarded accesses are owner reads of netAddress in Start, witnessed by decide). Goroutine and socket leaks, Stop latency and data races "
+         "are runtime facts the model cannot exhibit: they are observed on 31 (quick) / 600 (thorough) scenarios of 1-64 tcp/udp/tls clients under "
+         "the race detector (one process per scenario), with abrupt closes and Stop during traffic; Ipfix.C12 predicates are evaluated on every observation.",
+    design="4 (C12), 5 (D15 fixed)",
+    note="Go's runtime scheduler, sync.RWMutex, the kernel's sockets and the race detector are trusted; DTLS is not exercised here (C01, C18).")
+CHECKS["C13"] = dict(
+    engine="lin",
+    technique="Lean 4 proof (atomic operations are linearizable; soundness of the executable linearizability checker; no double export from the scan loop; lock discipline by decide) + recorded concurrent histories through the Lean checker and race-detector stress; partial",
+    text="PARTIAL: proved - atomic_linearizable (an execution whose operations take effect atomically at one step between invocation and response "
+         "is a sequential execution in step order, respecting real time), linearizable_sound / checker_sound, serialisation_independent, "
+         "no_lost_delta, no_double_count, no_double_export (from the real scan loop), and the lock-discipline theorems over facts regenerated by "
+         "tools/lockfacts-agg (every access to the flow map / expiry queue reachable from a goroutine root is inside a.mutex; callbacks run "
+         "inside the critical section). That sync.RWMutex provides the atomicity and that there are no data races is observed: 2000 recorded "
+         "small histories (<= 8 overlapping operations) are decided by the Lean linearizability checker against the aggregation model, and 20 "
+         "stress runs with up to 16 goroutines plus the worker pool run under the race detector and are compared with the model on one serialisation.",
+    design="4 (C13)",
+    note="granularity is per record (the lock is taken per record, not per message); a possible Stop() deadlock with a worker blocked on the mutex was noted by inspection (liveness, outside C13).")
+
 NOT_YET = {}
 
 
